@@ -86,6 +86,37 @@ PROPS["C02"] = dict(
     assumptions=["generator flags (which packet carries SPS/PPS/VPS, which starts a key picture) are the ground truth"],
 )
 
+PROPS["C01"] = dict(
+    bin="race", level="exploration", shards={"quick": 16, "thorough": 16},
+    timeout={"quick": 900, "thorough": 3000},
+    rule=("publish sequences of 20-900 unique-id packets over all four channels (payload sizes 0, 1-3, MTU, 65523 = largest frame, random) "
+          "to media.Stream; (1) sequential scenarios with 1..64 recording consumers attaching/detaching at PRNG-chosen publish indices: exact "
+          "oracle (record == published[attach:detach]) and a differential rerun of one consumer alone; (2) racy scenarios: publisher, attach "
+          "and detach goroutines with seeded delays at 8 hook points, interval oracle on the shared logical clock. Distinct by (packet count "
+          "class, consumer count)"),
+    level_text=("Recorded-history monitor over the real fan-out path: at-most-once, publish order, byte identity (hash at publish vs hash at "
+                "delivery vs hash after the run), completeness over the attached interval, 1-vs-N independence"),
+    level_note=("core (media package) part; per-transport delivery (RTSP/TCP, UDP, ws-rtsp, WSP, HTTP-FLV) is exercised at service level by "
+                "kit server scenarios in C12/C13/C20 where the same unique-id oracle is applied to bytes read from real sockets"),
+    technique="runtime monitoring: offline checker over recorded delivery logs with unique ids; seeded schedule perturbation; race detector informational",
+    assumptions=["scenarios stay below the 1000-packet backlog limit, so nothing is dropped for backlog (dropping is C04's subject)"],
+)
+
+PROPS["C04"] = dict(
+    bin="race", level="exploration", shards={"quick": 16, "thorough": 16},
+    timeout={"quick": 1200, "thorough": 3400},
+    rule=("per pattern: N=2500-17500 unique packets (video with a key frame every G video packets, G in {1,2,7,30,250,999,1000,1001,3000,none}, "
+          "audio every 4th) published to media.Stream (RTP path, or FLV tags through WriteFlvTag) with four consumers attached: healthy, "
+          "stalled (blocks inside Consume at PRNG delivery counts, released when the publisher reaches PRNG indices; long and short stalls), "
+          "slow (sleeps per packet), panicking (k-th delivery). Distinct by (G, path, cache, number of stalls)"),
+    level_text=("Runtime monitor over the real per-consumer queues: publisher completion (goroutine state decides on watchdog), healthy record exact, "
+                "stalled queue length sampled after every write against 1000+G, gap alignment of the stalled record to key-frame starts, "
+                "panicking consumer detached and closed"),
+    level_note="streams without key frames (G=none) are outside the statement's premise for the bound and counted as unjudged there",
+    technique="runtime monitoring: queue-length sampling through a verif accessor + offline gap-alignment checker over unique-id delivery logs",
+    assumptions=["publisher flow-controls against the healthy consumer only, so that consumer is never the one being dropped"],
+)
+
 # checks whose texts are kept as JSON (props_json/<ID>.json)
 import json as _json, os as _os, glob as _glob
 for _f in sorted(_glob.glob(_os.path.join(_os.path.dirname(_os.path.abspath(__file__)), "props_json", "C*.json"))):
